@@ -225,7 +225,7 @@ class ConvertSpecialChars(Contract):
                 prev = DEC(base, t, i - 1) if base is not None else (i - 1 == 0)
                 cl["decode"] = And(prev, piece_ok(suffix, cp_at(t, i - 1)))
             return cl
-        self.loops = {1: LoopSpec(inv=inv, before=before)}
+        self.loops = {1: LoopSpec(inv=inv, before=before, writes=["converted_text"])}
 
     def ensures(self, c, out):
         st = out.state
